@@ -82,7 +82,7 @@ func Run(o *hx.Opts, w *lineio.Writer) error {
 					return
 				}
 				obs[i] = ob
-				if ob.Outcome == "timeout" || ob.ErrKind == "deadline" {
+				if (ob.Outcome == "timeout" || ob.ErrKind == "deadline") && ins[i].ReqTimeoutMs == 0 {
 					atomic.AddInt32(&slow, 1)
 				}
 			}
@@ -239,7 +239,7 @@ func (p *proc) do(id string, in *In) (*Obs, error) {
 
 func emptyObs() *Obs {
 	return &Obs{Attempts: []Attempt{}, Plan: []ChunkObs{}, Calls: []CallObs{}, Returned: []int{}, RtUpdates: []int{},
-		PodSizes: [][2]int{}, CtrSizes: [][2]int{}, Plugins: []PluginObs{}}
+		PodSizes: [][2]int{}, CtrSizes: [][2]int{}, Plugins: []PluginObs{}, UpdSizes: [][2]int{}}
 }
 
 // sizesInto measures the encoded object sizes in the parent (the worker that would have
@@ -544,6 +544,70 @@ func restart(rng *rand.Rand, n int) []*In {
 	return out
 }
 
+// replies: the REPLY has a size limit too. deliverSync puts all updates of the handler into one
+// SynchronizeResponse; one that exceeds ttrpc's limit is dropped by the stub's ttrpc server and
+// the runtime's call ends with the request deadline. Expected: total reply comfortably under the
+// limit -> synchronized, every update arrives unchanged; over the limit -> the handler has been
+// called once with the whole state, registration fails cleanly (not activated, runtime alive).
+// Cases expected to end by the deadline carry a short request timeout of their own.
+func replies(rng *rand.Rand, thorough bool) []*In {
+	type rc struct {
+		note       string
+		pods, ctrs [][2]int
+		k, pad     int
+	}
+	cs := []rc{
+		{"10 updates of 500KB: reply of 5 MB", run1(2, tiny), run1(10, tiny), 10, 500_000},
+		{"8 updates of 500KB: reply of 4.0 MB fits", run1(2, tiny), run1(10, tiny), 8, 500_000},
+		{"split state, then a reply of 5 MB", run1(5, kb), run1(30, 300_000), 10, 500_000},
+		{"split state, reply of 3 MB fits", run1(5, kb), run1(30, 300_000), 6, 500_000},
+		{"200 updates of 1KB", run1(3, tiny), run1(300, kb), 200, 1000},
+	}
+	if thorough {
+		cs = append(cs,
+			rc{"1 update of 5 MB", run1(1, tiny), run1(3, tiny), 1, 5_000_000},
+			rc{"3000 updates of 2KB: reply of 6 MB", run1(2, tiny), run1(3000, tiny), 3000, 2000},
+			rc{"3000 updates of 1KB: reply of 3.6 MB fits", run1(2, tiny), run1(3000, tiny), 3000, 1000},
+		)
+	}
+	var out []*In
+	for _, c := range cs {
+		in := mk("reply", c.note, c.pods, c.ctrs)
+		in.Updates, in.UpdPad, in.ReqTimeoutMs = c.k, c.pad, 6000
+		out = append(out, in)
+	}
+	// within a few bytes of the limit: 4 updates, the last pad chosen so that the marshalled
+	// SynchronizeResponse has limit+d bytes (the ttrpc Response around it adds a few more)
+	// (measured: the ttrpc Response adds 5 bytes, so -5 is the largest reply that gets through)
+	ds := []int{-64, -5, -4, 40}
+	if thorough {
+		ds = []int{-64, -20, -8, -6, -5, -4, -3, 0, 8, 40}
+	}
+	for _, d := range ds {
+		in := mk("reply", fmt.Sprintf("reply payload of limit%+d bytes", d), run1(1+rng.Intn(3), tiny), run1(4+rng.Intn(5), tiny))
+		in.Updates, in.ReqTimeoutMs = 1, 6000
+		in.UpdPad = ttrpcLimit - 400
+		for k := 0; k < 6; k++ {
+			n := proto.Size(mkUpdate(0, "c0", in.UpdPad))
+			sz := 1 + protowire.SizeVarint(uint64(n)) + n
+			if sz == ttrpcLimit+d {
+				break
+			}
+			in.UpdPad += ttrpcLimit + d - sz
+		}
+		out = append(out, in)
+	}
+	// a handler that answers with the status ResourceExhausted: recalcObjsPerSyncMsg reports it
+	// with the very text of a refused request
+	for _, st := range [][2][][2]int{{run1(2, tiny), run1(3, kb)}, {run1(5, kb), run1(30, 300_000)},
+		{run1(5, kb), run1(20, kb)}, {run1(40, kb), run1(25, 300_000)}} {
+		in := mk("reply", "handler answers ResourceExhausted", st[0], st[1])
+		in.Handler = "exhausted"
+		out = append(out, in)
+	}
+	return out
+}
+
 // preinstalled: plugins launched by Adaptation.Start and synchronized by its `syncPlugins`.
 func preinstalled(rng *rand.Rand, n int) []*In {
 	states := []struct {
@@ -614,5 +678,6 @@ func generate(o *hx.Opts) []*In {
 	out = append(out, unsendable(o.Rand(5))...)
 	out = append(out, preinstalled(o.Rand(6), o.N(16, 80))...)
 	out = append(out, restart(o.Rand(7), o.N(16, 120))...)
+	out = append(out, replies(o.Rand(8), o.Thorough())...)
 	return out
 }
